@@ -48,9 +48,16 @@ void* alloca(size_t);
 #define vr_alloca(n) alloca(n)
 #define VR_POISON(p, n) ((void)0)
 #endif
+#ifdef __CPROVER__
+/* typed word-wise copies: keep CBMC's constant propagation alive across std::copy / vector construction */
+void* vr_memcpy(void* d, const void* s, uint64_t n);
+void* vr_memmove(void* d, const void* s, uint64_t n);
+void* vr_memset(void* d, int c, uint64_t n);
+#else
 #define vr_memcpy(d,s,n) memcpy((d),(s),(n))
 #define vr_memmove(d,s,n) memmove((d),(s),(n))
 #define vr_memset(d,c,n) memset((d),(c),(n))
+#endif
 
 static inline uint32_t vr_ctlz32(uint32_t x){ return x ? (uint32_t)__builtin_clz(x) : 32u; }
 static inline uint64_t vr_ctlz64(uint64_t x){ return x ? (uint64_t)__builtin_clzll(x) : 64u; }
